@@ -46,6 +46,7 @@ BindResult(m, p) ==
     ELSE CASE p = "none"             -> "r_none"
            [] p \in {"a_1", "o_a"}   -> "r_a1"
            [] p = "a_deep"           -> "r_deep"
+           [] p = "a_deep64"         -> "r_deep64"
            [] OTHER                  -> "nobind"
 Registered == {"m_ok", "m_one", "m_perr", "m_exc"}
 
